@@ -33,10 +33,11 @@ class Ctx:
         h = hashlib.sha1(json.dumps(replay, sort_keys=True).encode()).hexdigest()[:12]
         os.makedirs(REPLAY_DIR, exist_ok=True)
         path = os.path.join(REPLAY_DIR, "%s-%s.json" % (self.prop, h))
-        replay = dict(replay)
-        replay["property"] = self.prop
-        replay["what"] = what
-        json.dump(replay, open(path, "w"), indent=1, ensure_ascii=False)
+        if len(self.violations) < 300:      # every violation is counted; replay files are written for the first 300 of a run
+            replay = dict(replay)
+            replay["property"] = self.prop
+            replay["what"] = what
+            json.dump(replay, open(path, "w"), indent=1, ensure_ascii=False)
         self.violations.append({"what": what, "replay": path})
 
     def finish(self, level="model_checking", rule="", extra=None):
